@@ -343,6 +343,16 @@ pub fn run(seed: u64, n: usize, out: &mut Out, with_mistakes: bool) {
                     nc += 1;
                 }
             }
+            // keyed collections: a key whose first value is rejected is still a key that was seen
+            // (fixed shapes on every receiver with a map-typed field; the repeat must be reported too)
+            if !info.is_enum {
+                for (fi, f) in info.fields.iter().enumerate() {
+                    if !f.multiple && f.invalid.contains(&"(a = 1, a = 2)") {
+                        srcs.push((format!("m-{}-{}a", info.name, fi), format!("x({}(a = 300, a = 2))", f.name)));
+                        srcs.push((format!("m-{}-{}b", info.name, fi), format!("x({}(k = 1, a = \"no\", b = 2, a = 3, a = 300))", f.name)));
+                    }
+                }
+            }
             for (wid, src) in srcs {
                 if let Some(m) = parse_meta_pub(&src) {
                     let mut cands = BTreeSet::new();
@@ -537,6 +547,51 @@ pub fn run_suggest(seed: u64, n: usize, out: &mut Out) {
         }
         let mut te = e.ty.clone();
         te.kinds = vec!["Path"];
+        // struct variants with a flatten field and a skipped sibling: names at distance 0 and 1 of every
+        // field of the variant (the skipped ones in particular), deterministically — the enclosing names a
+        // flatten member is lent must not include what the variant itself would not accept
+        if info.is_enum {
+            if let syn::Data::Enum(en) = &decls[info.name].data {
+                for var in &en.variants {
+                    let opts = |f: &syn::Field, w: &str| recv::darling_items(&f.attrs).iter().any(|it| match it {
+                        darling_core::ast::NestedMeta::Meta(m) => m.path().is_ident(w),
+                        _ => false,
+                    });
+                    if !(var.fields.iter().any(|f| opts(f, "flatten")) && var.fields.iter().any(|f| opts(f, "skip"))) {
+                        continue;
+                    }
+                    let mut names = transforms(&var.ident.to_string());
+                    for it in recv::darling_items(&var.attrs) {
+                        if let darling_core::ast::NestedMeta::Meta(syn::Meta::NameValue(nv)) = it {
+                            if nv.path.is_ident("rename") {
+                                if let syn::Expr::Lit(syn::ExprLit { lit: syn::Lit::Str(s), .. }) = &nv.value {
+                                    names.push(s.value());
+                                }
+                            }
+                        }
+                    }
+                    let sample = info.valid.iter().find(|v| {
+                        v.starts_with('(') && v.ends_with("))") && names.contains(&v[1..].split('(').next().unwrap_or("").trim().to_string())
+                    });
+                    if let Some(v) = sample {
+                        let body = &v[..v.len() - 2];
+                        for f in &var.fields {
+                            if let Some(fid) = &f.ident {
+                                for name in [fid.to_string(), format!("{}x", fid), format!("{}_", fid)] {
+                                    let src = if body.ends_with('(') { format!("x{}{} = 1))", body, name) } else { format!("x{}, {} = 1))", body, name) };
+                                    if let Some(m) = parse_meta_pub(&src) {
+                                        let (case, ans) = meta_case_with(&te, &m, "recv", if no_sim { vec![] } else { score_rows(&m, &cands) });
+                                        out.stat("variant_flatten_skip_probes", 1);
+                                        out.case_id("recv", &format!("s-{}", id), &case, &ans);
+                                        id += 1;
+                                    }
+                                }
+                            }
+                        }
+                    }
+                }
+            }
+        }
         for j in 0..per {
             let mut r = base.fork((k * 100_003 + j) as u64);
             let mut name = r.pick(&cand_vec).clone();
